@@ -137,7 +137,15 @@ def wrong_case(c):
     return None
 
 
-FAM = {"pair": pair_case, "after": after_case, "wrong": wrong_case}
+def wrong_child_case(c):
+    t, h, flags = c
+    text = H + "for %s i in %s\n    G(i) | 0\n" % (t, h)
+    if common.loads_in_child(([text], flags))[0] == "ok":
+        return ("C06/wrong-type-value-accepted:python " + " ".join(flags), "for %s i in %s loaded in an interpreter started with %s" % (t, h, " ".join(flags)))
+    return None
+
+
+FAM = {"pair": pair_case, "after": after_case, "wrong": wrong_case, "wrongchild": wrong_child_case}
 
 
 @common.guarded("C06")
@@ -184,7 +192,14 @@ def run(ctx):
             Vs.add("C06/no-outcome", {"case": repr(c)}, "timeout")
         elif r is not None:
             Vs.add(r[0], {"case": repr(c)}, r[1])
-    cov = {"evaluations": len(cases), "distinct_nontrivial": len(cases) - empties,
+    # the refusal cases once more in interpreters started with -O and -OO (every process refuses a wrong-typed value)
+    texts = [H + "for %s i in %s\n    G(i) | 0\n" % (t, h) for t, h in WRONG]
+    for flags, outs in zip((["-O"], ["-OO"]), pool.pmap(common.loads_in_child, [(texts, ["-O"]), (texts, ["-OO"])], chunk=1, timeout=1200)):
+        for (t, h), o in zip(WRONG, outs if isinstance(outs, list) else []):
+            fam["wrongchild"] += 1
+            if o == "ok":
+                Vs.add("C06/wrong-type-value-accepted:python " + " ".join(flags), {"case": repr(("wrongchild", (t, h, flags)))}, "for %s i in %s loaded in an interpreter started with %s" % (t, h, " ".join(flags)))
+    cov = {"evaluations": len(cases) + fam["wrongchild"], "distinct_nontrivial": len(cases) - empties + fam["wrongchild"],
            "rule": "every loop header (int/float ranges a:b, a:b:c over a,b in 0..3 (thorough 0..4), c in 1..3; value lists of int/float/bool/str values and expressions in three bracket styles) x every body "
                    "(loop variable in argument, keyword, list element, mode, second mode, array index, arithmetic, unused; 1-2 (thorough 3) statements) x 6 contexts (nothing; statement before and after; "
                    "declaration before + a second loop reusing the variable; statement after + second loop; an earlier loop and a declaration before, a use of it after; a re-declaration between two loops); plus use of the variable after every loop and wrong-type lists. "
